@@ -36,18 +36,20 @@ impl BinaryOperators {
     pub fn new() -> BinaryOperators {
         let mut operators = HashMap::new();
 
-        operators.insert(Operator::Single('.'), BinaryOperator::new(6));
-        operators.insert(Operator::Single('^'), BinaryOperator::new(5));
-        operators.insert(Operator::Single('*'), BinaryOperator::new(5));
-        operators.insert(Operator::Single('/'), BinaryOperator::new(5));
-        operators.insert(Operator::Single('+'), BinaryOperator::new(4));
-        operators.insert(Operator::Single('-'), BinaryOperator::new(4));
-        operators.insert(Operator::Single('<'), BinaryOperator::new(3));
-        operators.insert(Operator::Dual('<', '='), BinaryOperator::new(3));
-        operators.insert(Operator::Single('>'), BinaryOperator::new(3));
-        operators.insert(Operator::Dual('>', '='), BinaryOperator::new(3));
-        operators.insert(Operator::Single('='), BinaryOperator::new(2));
-        operators.insert(Operator::Dual('!', '='), BinaryOperator::new(2));
+        // Higher precedence binds tighter. See also Parser::get_token_precedence for the keyword operators:
+        // OR (1), AND (2), NOT (3), comparisons with IS and IN (4), + - (5), * / (6), unary minus (7), :: [] . (8).
+        operators.insert(Operator::Single('.'), BinaryOperator::new(8));
+        operators.insert(Operator::Single('^'), BinaryOperator::new(6));
+        operators.insert(Operator::Single('*'), BinaryOperator::new(6));
+        operators.insert(Operator::Single('/'), BinaryOperator::new(6));
+        operators.insert(Operator::Single('+'), BinaryOperator::new(5));
+        operators.insert(Operator::Single('-'), BinaryOperator::new(5));
+        operators.insert(Operator::Single('<'), BinaryOperator::new(4));
+        operators.insert(Operator::Dual('<', '='), BinaryOperator::new(4));
+        operators.insert(Operator::Single('>'), BinaryOperator::new(4));
+        operators.insert(Operator::Dual('>', '='), BinaryOperator::new(4));
+        operators.insert(Operator::Single('='), BinaryOperator::new(4));
+        operators.insert(Operator::Dual('!', '='), BinaryOperator::new(4));
 
         BinaryOperators {
             operators
